@@ -299,6 +299,7 @@ func (p *Progress) serve(s *pState, cw *cwriter.Writer) {
 				update := make(chan bool)
 				for i := 0; i == 0 || <-update; i++ {
 					if err := s.render(w); err != nil {
+						verifhook.Event(verifhook.CtRenderErr, err.Error())
 						_, _ = fmt.Fprintln(s.debugOut, err.Error())
 						break
 					}
